@@ -347,8 +347,10 @@ impl Harness for C18 {
                 if mask == 0 {
                     continue;
                 }
-                jobs.push(Job::new(format!("unseen-p{}-m{:0w$b}", p, mask, w = p), json!({"kind": "unseen", "p": p, "mask": mask, "kmax": 3, "backends": nbe, "seed": seed})));
-                jobs.push(Job::new(format!("nonint-p{}-m{:0w$b}", p, mask, w = p), json!({"kind": "nonint", "p": p, "mask": mask, "kmax": 3, "backends": nbe, "seed": seed})));
+                // quick: 1..3 categories per column up to p = 3, 1..2 at p = 4; thorough: 1..3 throughout
+                let kmax_err = if t || p <= 3 { 3 } else { 2 };
+                jobs.push(Job::new(format!("unseen-p{}-m{:0w$b}", p, mask, w = p), json!({"kind": "unseen", "p": p, "mask": mask, "kmax": kmax_err, "backends": nbe, "seed": seed})));
+                jobs.push(Job::new(format!("nonint-p{}-m{:0w$b}", p, mask, w = p), json!({"kind": "nonint", "p": p, "mask": mask, "kmax": kmax_err, "backends": nbe, "seed": seed})));
             }
         }
         if t {
@@ -402,7 +404,7 @@ impl Harness for C18 {
                 "layout": format!("every p<={}, every subset of categorical columns, every category-count vector in {{1..{}}}^|S|, index list in every order for |S|<={} (else sorted, reversed, rotated, evens-then-odds, first-two-swapped), 3 code schemes x 3 row schemes (n = kk+1, kk, 2kk rows where kk = largest category count), {} backends", p_all, kmax, full, nbe),
                 "layout_extensions_thorough": if t { "p<=6 with 1..6 categories per column (row schemes 0,1); p=9,10 every subset with 1..3 categories (row scheme 0); both on DenseMatrix f64/f32, orderings: all for |S|<=3 else the 5 structured ones" } else { "-" },
                 "first_appearance": format!("p<=3, every non-empty subset, every restricted growth string per categorical column: n<={} (1 col), n<={} (2 cols), n<={} (3 cols)", rgs_n(1), rgs_n(2), rgs_n(3)),
-                "unseen": format!("p<={}: every non-empty subset x k in {{1,2,3}}^|S| x every cell of every categorical column x 12 replacement values (unseen integer codes, codes of the neighbouring column, non-integers, negatives, >65535)", p_err),
+                "unseen": format!("p<={} (quick: k<=2 at p=4): every non-empty subset x k in {{1,2,3}}^|S| x every cell of every categorical column x 12 replacement values (unseen integer codes, codes of the neighbouring column, non-integers, negatives, >65535)", p_err),
                 "non_integer_fit": format!("p<={}: every non-empty subset x k x every cell of every categorical column x 8 fractional offsets", p_err),
                 "mapper_e2": format!("CategoryMapper over every stream of length <={} on {} letters (u16 and String categories), from_category_map for every bijection", if t { 7 } else { 6 }, if t { 4 } else { 3 }),
                 "seed": format!("VERIF_SEED={} selects the code offset / table rotation / plain-value shift of the alphabets", seed),
